@@ -33,6 +33,15 @@ ROOTS4 = [["["], ["[", "!"], ["[", "^"], ["[", "]"], ["[", "!", "]"], ["[", "^",
           ["[", "]", "-"], ["[", "[", ":"], ["[", "!", "!"], ["[", "^", "^"], ["[", "!", "^"]]
 
 
+# fifth family: character classes inside bracket expressions (composite symbols, see Pattern.tla)
+PAT_ALPHA5 = ["a", "*", "?", "[", "]", "[:alpha:]", "[:digit:]", "[:punct:]"]
+SUBJ_ALPHA5 = ["a", "1", "?", ".", "]"]
+ROOTS5 = [["["], ["[", "!"]]
+# sixth family: braces and digits (regular-expression repetition syntax must stay literal)
+PAT_ALPHA6 = ["a", "{", "}", "1", ",", "*", "?"]
+SUBJ_ALPHA6 = ["a", "{", "}", "1", ","]
+
+
 def gen(R, pat_alpha, subj_alpha, maxp, maxs, name, pairs=False, roots=None):
     defs = "MCPatAlpha == %s\nMCSubjAlpha == %s\n" % (tla_seq(pat_alpha), tla_seq(subj_alpha))
     cfg = ("INIT Init\nNEXT Next\nINVARIANT Inv\nCONSTANTS\n PatAlpha <- MCPatAlpha\n"
@@ -123,6 +132,10 @@ def run(R):
     sizes = []
     n, s = family(R, PAT_ALPHA4, SUBJ_ALPHA4, 5 if R.tier == "quick" else 6, 2, "c12d", roots=ROOTS4)
     sizes.append(dict(family="c12d (bracket openings)", patterns=n, subjects=s, max_pattern_len=5 if R.tier == "quick" else 6, max_subject_len=2))
+    n, s = family(R, PAT_ALPHA5, SUBJ_ALPHA5, 5 if R.tier == "quick" else 6, 2, "c12e", roots=ROOTS5)
+    sizes.append(dict(family="c12e (character classes)", patterns=n, subjects=s, max_pattern_len=5 if R.tier == "quick" else 6, max_subject_len=2))
+    n, s = family(R, PAT_ALPHA6, SUBJ_ALPHA6, 4 if R.tier == "quick" else 5, 3, "c12f")
+    sizes.append(dict(family="c12f (braces)", patterns=n, subjects=s, max_pattern_len=4 if R.tier == "quick" else 5, max_subject_len=3))
     for pa, sa, mp, ms, name, pairs in plan:
         n, s = family(R, pa, sa, mp, ms, name, pairs)
         sizes.append(dict(family=name, patterns=n, subjects=s, max_pattern_len=mp, max_subject_len=ms))
